@@ -375,8 +375,18 @@ def _leaves(p) -> set:
     import re as _re
     out = set()
     for a in atoms(p):
-        out |= set(_re.findall(r"[A-Za-z_][A-Za-z_0-9\\.\\[\\]]*", a)) - {"and", "or", "xor", "inv", "shr", "shl", "fdiv", "mod", "div", "pow"}
+        out |= set(_re.findall(r"[A-Za-z_][A-Za-z_0-9.]*(?:\[[0-9]+\])?", a)) - {"and", "or", "xor", "inv", "shr", "shl", "fdiv", "mod", "div", "pow"}
     return out
+
+
+MAPPING_FIELDS = {"self.address_range[0]", "self.address_range[1]", "self.bank_range[0]", "self.bank_range[1]", "self.mask"}
+
+
+def _fields_independent(ctx: Ctx) -> bool:
+    """Mapping.__init__ stores bank_range, address_range and mask unchanged from its own parameters (so they vary independently)"""
+    init = ctx.repo.func(MAPPING, "Mapping.__init__")
+    stored = {unparse(a.targets[0]): unparse(a.value) for a in walk_no_nested(init.node) if isinstance(a, ast.Assign) and len(a.targets) == 1}
+    return all(stored.get(f"self.{f}") == f and f in init.params() for f in ("bank_range", "address_range", "mask"))
 
 
 REF_FORMULAS = {
@@ -418,6 +428,11 @@ def r5_formula_normal_form(ctx: Ctx) -> None:
             ctx.ok(q + ":formula", show(got)[:160])
         elif _leaves(got) <= _leaves(ref):
             ctx.fail(q + ":formula", f"computes {show(got)[:200]}; the bus law is {show(ref)[:200]}")
+        elif all(x in MAPPING_FIELDS for x in _leaves(got) - _leaves(ref)) and _fields_independent(ctx):
+            # the other constructor parameters of a Mapping are chosen freely by `.map` / Bus.map: two different polynomials over independent
+            # parameters differ for some mapping a user can declare (the built-in tables may happen to agree)
+            ctx.fail(q + ":formula", f"computes {show(got)[:200]}, which brings in {sorted(_leaves(got) - _leaves(ref))}; the bus law is {show(ref)[:200]} "
+                     "(the two agree only for mappings whose parameters happen to coincide)")
         else:
             raise AnalysisError(f"{q}: formula uses terms outside the reference vocabulary ({sorted(_leaves(got) - _leaves(ref))[:4]}); cannot compare")
     ad = ctx.repo.func(MAPPING, "Address.__add__")
